@@ -27,7 +27,7 @@ def chunked(body: bytes, r, exts=False, trailers=False):
 class Req:
     """one request + what the spec says must happen"""
     def __init__(self, r, kind=None, last=False):
-        self.kind = kind or r.choice(["echo", "echo", "noread", "readk", "early", "swallow", "p", "notfound", "close", "err", "hookdrop", "hookdropclose", "bigr", "reqclose", "reqnoclose"])
+        self.kind = kind or r.choice(["echo", "echo", "noread", "readk", "early", "swallow", "p", "notfound", "close", "err", "errint", "errclose", "hookdrop", "hookdropclose", "bigr", "reqclose", "reqnoclose"])
         k = self.kind
         self.body = b""
         self.framing = None
@@ -50,6 +50,10 @@ class Req:
             path = b"/p/" + self.a + b"/" + self.b
         elif k == "close": path = b"/close"
         elif k == "err": path = b"/err"
+        elif k == "errint": path = b"/errint"
+        elif k == "errclose":
+            path = b"/err"
+            hdrs.append((b"Connection", b"close"))
         elif k == "bigr":
             self.n = r.choice([0, 1, 100, 2047, 2048, 8191, 8192, 8193, 20000])
             path = b"/bigr/%d" % self.n
@@ -93,7 +97,7 @@ class Req:
         if k == "p": return (200, 0, self.a + b"," + self.b), False
         if k == "notfound": return (404, 0, b""), False
         if k == "close": return (200, 1, b"bye"), True
-        if k == "err": return None, True
+        if k in ("err", "errint", "errclose"): return None, True
         if k == "bigr": return (200, 0, b"x" * self.n), False
         if k == "hookdrop": return (405, 0, b""), False
         if k == "hookdropclose": return (405, 1, b""), True
